@@ -3,7 +3,10 @@
 package ui
 
 import (
+	"errors"
+	"servitor/feed"
 	"servitor/mime"
+	"servitor/pub"
 	"sync"
 )
 
@@ -28,6 +31,8 @@ func VerifOpenExternally(link string, mediaType *mime.MediaType, width, height i
 		}
 	})
 	s.m.Lock()
+	/* outside loading mode there is always a page */
+	s.h.Add(&Page{feed: feed.Create(pub.NewFailure(errors.New("placeholder page")))})
 	s.mode = normal
 	s.openExternally(link, mediaType)
 	s.m.Unlock()
